@@ -26,7 +26,7 @@ impl Deserialize for Ed25519KeyHashes {
                 cbor_event::Len::Len(n) => total < n,
                 cbor_event::Len::Indefinite => true,
             } {
-                if is_break_tag(raw, "Ed25519KeyHashes")? {
+                if is_break_tag(raw, len, "Ed25519KeyHashes")? {
                     break;
                 }
                 creds.add_move(Ed25519KeyHash::deserialize(raw)?);
